@@ -19,7 +19,9 @@ on 8 record identities under collision-free names (x, a.x, b.x, c.a.x); after ev
 and combined filters. Every library call is bracketed by two Instant readings; the model keeps per identity Authoritative | Cached{added in [a0,a1], effective ttl}. \
 Cached record: must be returned if the query ended before a0+ttl, must not be returned if it began at or after a1+ttl (in between either); authoritative: always by \
 authoritative/all filters, never by the cached filter; removed/cleared/foreign-name records never. Authoritative is sticky against a later add-cached. Histories run in \
-parallel threads, each with its own store; under Miri the same workload runs on the virtual clock. non-trivial = query observation that was decided (not in the tolerance \
+parallel threads, each with its own store; under Miri the same workload runs on the virtual clock. Live family: a real sync and a real tokio ServiceDiscovery (receive loop and 5-second \
+refresh cycle running) each receive one response about four peers (SRV with TTL 2 next to TXT/A with TTL 4500; all 4500; all 2; all with the cache-flush bit) and get_known_services() is read \
+0.45 s after it (all complete, else inconclusive) and 8 s after it (first peer without its port, second complete, third and fourth gone). non-trivial = query observation that was decided (not in the tolerance \
 band) on a non-empty model; distinct = hash of (model state, filter, name, decision vector)",
         assumptions: &["Instant is monotonic; the tolerance band is the width of the bracketing interval (microseconds), TTLs are whole seconds"],
         exhaustive: false,
@@ -237,7 +239,163 @@ fn history(seed: u64, idx: u64, virtual_clock: bool) -> Local {
     out
 }
 
+/// Expiry as the application sees it through real services: a sync and a tokio ServiceDiscovery (receive loop and the
+/// five-second refresh cycle running) each get one response packet about four peers whose records have different
+/// lifetimes, and `get_known_services()` is read half a second and eight seconds after it.
+fn live(ctx: &mut Ctx) -> Vec<std::thread::JoinHandle<Local>> {
+    use simple_dns::rdata::{RData, A, SRV, TXT};
+    use simple_dns::{Name, Packet, ResourceRecord, CLASS};
+    use simple_mdns::{async_discovery, sync_discovery, InstanceInformation};
+    let mut handles = Vec::new();
+    for tokio_side in [false, true] {
+        let pid = std::process::id();
+        let seed = ctx.seed;
+        handles.push(std::thread::spawn(move || {
+            let mut out = Local { log: vec![], violations: vec![], evals: 0, hashes: vec![], counters: BTreeMap::new() };
+            let who = if tokio_side { "tokio ServiceDiscovery" } else { "sync ServiceDiscovery" };
+            let service_s = format!("_x{}{}._tcp.local", pid, if tokio_side { "t" } else { "s" });
+            let rt = tokio::runtime::Builder::new_multi_thread().worker_threads(2).enable_all().build().unwrap();
+            let started = monitor::guard(|| {
+                let info = InstanceInformation::new("self".into()).with_port(9);
+                if tokio_side {
+                    let _g = rt.enter();
+                    (None, async_discovery::ServiceDiscovery::new(info, &service_s, 60).ok())
+                } else {
+                    (sync_discovery::ServiceDiscovery::new(info, &service_s, 60).ok(), None)
+                }
+            });
+            let (sd, ad) = match started {
+                Ok((s, a)) if s.is_some() || a.is_some() => (s, a),
+                _ => {
+                    *out.counters.entry("live_skipped".into()).or_insert(0) += 1;
+                    out.log.push(format!("INCONCLUSIVE live expiry: the {} could not start", who));
+                    return out;
+                }
+            };
+            let known = |sd: &Option<sync_discovery::ServiceDiscovery>, ad: &Option<async_discovery::ServiceDiscovery>| -> Vec<InstanceInformation> {
+                match (sd, ad) {
+                    (Some(s), _) => s.get_known_services().into_iter().collect(),
+                    (_, Some(a)) => rt.block_on(a.get_known_services()).into_iter().collect(),
+                    _ => vec![],
+                }
+            };
+            // the packet: peer -> (ttl of SRV, ttl of TXT and A, cache-flush)
+            let peers: [(&str, u32, u32, bool); 4] = [("x", 2, 4500, false), ("y", 4500, 4500, false), ("z", 2, 2, false), ("w", 4500, 4500, true)];
+            let mut p = Packet::new_reply(0);
+            for (k, (name, ttl_srv, ttl_rest, flush)) in peers.iter().enumerate() {
+                let full = Name::new(&format!("{}.{}", name, service_s)).unwrap().into_owned();
+                let recs = vec![
+                    ResourceRecord::new(full.clone(), CLASS::IN, *ttl_srv, RData::SRV(SRV { port: 8000 + k as u16, priority: 0, weight: 0, target: full.clone() })),
+                    ResourceRecord::new(full.clone(), CLASS::IN, *ttl_rest, RData::TXT(TXT::new().with_string("k=v").unwrap().into_owned())),
+                    ResourceRecord::new(full.clone(), CLASS::IN, *ttl_rest, RData::A(A { address: 0x0A00_0001 + k as u32 })),
+                ];
+                for rr in recs {
+                    p.answers.push(rr.with_cache_flush(*flush));
+                }
+            }
+            let bytes = p.build_bytes_vec_compressed().unwrap();
+            let Ok(sock) = std::net::UdpSocket::bind("0.0.0.0:0") else { return out };
+            let _ = sock.set_multicast_loop_v4(true);
+            std::thread::sleep(Duration::from_millis(300));
+            let t_send = Instant::now();
+            let _ = sock.send_to(&bytes, "224.0.0.251:5353");
+            let case = json!({"family": "live", "idx": tokio_side as u64, "service": service_s, "packet": hex(&bytes), "seed": seed});
+            // half a second later everything must be there (a lost datagram is not the library's fault)
+            std::thread::sleep(Duration::from_millis(450));
+            let k1 = match monitor::guard(|| known(&sd, &ad)) {
+                Ok(k) => k,
+                Err(pn) => {
+                    out.violations.push(("returned-while-ttl-runs".into(), format!("panic@{}", monitor::short_loc(&pn.location)), format!("get_known_services panicked: {}", pn.message), case.clone()));
+                    return out;
+                }
+            };
+            let find = |k: &Vec<InstanceInformation>, n: &str| k.iter().find(|i| i.escaped_instance_name() == n).cloned();
+            if ["x", "y", "z", "w"].iter().any(|n| find(&k1, n).is_none()) {
+                *out.counters.entry("live_skipped".into()).or_insert(0) += 1;
+                out.log.push(format!("INCONCLUSIVE live expiry: half a second after the response was sent the {} knows only {:?} (datagram lost?)", who, k1.iter().map(|i| i.escaped_instance_name()).collect::<Vec<_>>()));
+                return out;
+            }
+            for n in ["x", "y", "z", "w"] {
+                let i = find(&k1, n).unwrap();
+                out.evals += 1;
+                if i.ports.len() != 1 || i.ip_addresses.len() != 1 || i.attributes.len() != 1 {
+                    out.violations.push(("returned-while-ttl-runs".into(), format!("live-record-missing-before-expiry:{}", if tokio_side { "tokio" } else { "sync" }),
+                        format!("{}: {:?} half a second after reception lacks records whose TTL (>= 1 s) has not elapsed: {:?}", who, n, i), case.clone()));
+                }
+            }
+            // eight seconds after reception: at least one refresh cycle has run, the 2-second and the cache-flush lifetimes are over
+            let left = Duration::from_millis(8000).saturating_sub(t_send.elapsed());
+            std::thread::sleep(left);
+            let k2 = match monitor::guard(|| known(&sd, &ad)) {
+                Ok(k) => k,
+                Err(pn) => {
+                    out.violations.push(("returned-while-ttl-runs".into(), format!("panic@{}", monitor::short_loc(&pn.location)), format!("get_known_services panicked: {}", pn.message), case.clone()));
+                    return out;
+                }
+            };
+            let side = if tokio_side { "tokio" } else { "sync" };
+            out.evals += 4;
+            *out.counters.entry("live_expiry_observations".into()).or_insert(0) += 8;
+            match find(&k2, "y") {
+                Some(i) if i.ports.len() == 1 && i.ip_addresses.len() == 1 && i.attributes.len() == 1 => {}
+                other => out.violations.push(("returned-while-ttl-runs".into(), format!("live-record-missing-before-expiry:{}", side),
+                    format!("{}: peer y (all TTLs 4500 s) is incomplete eight seconds after reception: {:?}", who, other), case.clone())),
+            }
+            match find(&k2, "x") {
+                Some(i) if i.ports.is_empty() && i.ip_addresses.len() == 1 && i.attributes.len() == 1 => {}
+                Some(i) if !i.ports.is_empty() => out.violations.push(("never-after-expiry".into(), format!("live-expired-record-returned:{}", side),
+                    format!("{}: peer x still shows the port of its SRV record (TTL 2 s) eight seconds after reception: {:?}", who, i), case.clone())),
+                other => out.violations.push(("returned-while-ttl-runs".into(), format!("live-record-missing-before-expiry:{}", side),
+                    format!("{}: peer x lost records whose TTL is 4500 s when its 2-second SRV record expired: {:?}", who, other), case.clone())),
+            }
+            for (n, why) in [("z", "all TTLs 2 s"), ("w", "received with the cache-flush bit")] {
+                if let Some(i) = find(&k2, n) {
+                    out.violations.push(("never-after-expiry".into(), format!("live-expired-record-returned:{}", side),
+                        format!("{}: peer {} ({}) is still reported eight seconds after reception: {:?}", who, n, why, i), case.clone()));
+                }
+            }
+            out.hashes.push(fnv(service_s.as_bytes()));
+            out.log.push(format!("live expiry through the {}: x, y, z, w present at 0.45 s; x without port, y complete, z and w gone at 8 s", who));
+            rt.shutdown_timeout(Duration::from_millis(200));
+            out
+        }));
+    }
+    handles
+}
+
 pub fn run(ctx: &mut Ctx) {
+    let live_handles = if ctx.shard == 0 && !ctx.slow_tool && !cfg!(miri) && ctx.family_active("live") && std::env::var_os("VERIF_C20_NO_LIVE").is_none() { live(ctx) } else { Vec::new() };
+    run_histories(ctx);
+    for h in live_handles {
+        match h.join() {
+            Ok(l) => {
+                ctx.add("queries", l.evals);
+                for (k, v) in l.counters {
+                    ctx.add(&k, v);
+                }
+                for hsh in l.hashes {
+                    ctx.case(true, hsh);
+                }
+                for line in &l.log {
+                    if let Some(rest) = line.strip_prefix("INCONCLUSIVE ") {
+                        ctx.inconclusive.push(rest.to_string());
+                    }
+                }
+                for (clause, sig, detail, case) in l.violations {
+                    ctx.violation(&clause, &sig, detail, case);
+                }
+                ctx.sample("live", || json!({"log": l.log}));
+            }
+            Err(_) => ctx.inconclusive.push("the live expiry thread died outside a guarded call".into()),
+        }
+    }
+    for fp in monitor::take_foreign_panics() {
+        let loc = monitor::short_loc(&fp.location);
+        ctx.violation("returned-while-ttl-runs", &format!("service-thread-panic@{}", loc), format!("a service thread panicked during the live expiry family: {}", fp.message), json!({"family": "live", "idx": 0}));
+    }
+}
+
+fn run_histories(ctx: &mut Ctx) {
     let n = if ctx.slow_tool { 320 } else { ctx.tier.pick(480u64, 6400u64) };
     let mine: Vec<u64> = (0..n).filter(|i| ctx.take("history", *i)).collect();
     let seed = ctx.seed;
